@@ -113,8 +113,12 @@ C04Reported(g, p, rs) ==
                 optf == CHOOSE x \in SeqSet(vf) :
                           \A y \in SeqSet(vf) : IF kind = P1 THEN FixLeq(y, x) ELSE FixLeq(x, y)
                 listed == SeqSet(rs[s].acts)
+                \* a value this close to a 6-digit rounding boundary may legitimately
+                \* fall on either side
+                edge(x) == (x[2] % 1000) \in {499, 500, 501}
             IN  {"C04.MustAll s=" \o S2(s) \o " a=" \o row[j].a :
-                    j \in {j \in DOMAIN row : FixNear(vf[j], optf, 1) /\ row[j].a \notin listed}}
+                    j \in {j \in DOMAIN row : FixNear(vf[j], optf, 1) /\ ~edge(vf[j]) /\ ~edge(optf)
+                                               /\ row[j].a \notin listed}}
                 \cup {"C04.NoClearlyWorse s=" \o S2(s) \o " a=" \o row[j].a :
                     j \in {j \in DOMAIN row : ClearlyWorse(kind, vf[j], optf, 4000)
                                                /\ row[j].a \in listed}}
